@@ -14,7 +14,7 @@ use crate::build::*;
 use crate::val::*;
 
 thread_local! {
-    static LAST_PANIC: RefCell<String> = RefCell::new(String::new());
+    pub static LAST_PANIC: RefCell<String> = RefCell::new(String::new());
     pub static BASE: Cell<usize> = Cell::new(0);
 }
 
@@ -188,7 +188,7 @@ pub fn run_case_slice<'src, E: HErr<'src, &'src [char]>>(case: &Case, inputs: &'
     }
 }
 
-fn to_char(t: u32) -> char {
+pub fn to_char(t: u32) -> char {
     char::from_u32(t).unwrap_or('\u{fffd}')
 }
 
@@ -238,7 +238,7 @@ pub fn mapped_tokens(ts: &[u32], gap: usize) -> (Vec<(char, Sp)>, Sp) {
     (v, Sp::from(e..e))
 }
 
-fn emit_all<'src, I: HInput<'src>, E: HErr<'src, I>>(
+pub fn emit_all<'src, I: HInput<'src>, E: HErr<'src, I>>(
     case: &Case,
     w: &mut dyn Write,
     mut mk: impl FnMut(usize) -> I,
@@ -299,88 +299,6 @@ pub fn case_stream<K: EKind>(case: &Case, w: &mut dyn Write) {
             Err(_) => format!("P {}", LAST_PANIC.with(|p| p.borrow().clone())),
         };
         let _ = writeln!(w, "{}.{} M {}", case.id, k, obs);
-    }
-}
-
-/// the remaining input kinds, Rich errors only (one binary): arrays, boxed streams, mapped IoInput, with_context, map_span
-pub fn case_kinds(case: &Case, w: &mut dyn Write) {
-    type E<'a> = Rich<'a, char, Sp>;
-    let data: Vec<Vec<char>> = case.inputs.iter().map(|ts| ts.iter().map(|&t| to_char(t)).collect()).collect();
-    match case.kind {
-        Kind::Array => {
-            fn go<'src, const N: usize>(case: &Case, data: &'src [Vec<char>], ks: &[usize], w: &mut dyn Write) {
-                let built = catch_unwind(AssertUnwindSafe(|| build_case::<&'src [char; N], E<'src>>(case)));
-                for &k in ks {
-                    let arr: &'src [char; N] = data[k][..].try_into().unwrap();
-                    let obs = match &built {
-                        Ok(p) => {
-                            BASE.with(|b| b.set(arr.as_ptr() as usize));
-                            run_one::<&'src [char; N], E<'src>>(p, case.mode, arr)
-                        }
-                        Err(_) => format!("P {}", LAST_PANIC.with(|p| p.borrow().clone())),
-                    };
-                    let _ = writeln!(w, "{}.{} M {}", case.id, k, obs);
-                }
-            }
-            for n in 0..=8usize {
-                let ks: Vec<usize> = (0..data.len()).filter(|&k| data[k].len() == n).collect();
-                if ks.is_empty() {
-                    continue;
-                }
-                match n {
-                    0 => go::<0>(case, &data, &ks, w),
-                    1 => go::<1>(case, &data, &ks, w),
-                    2 => go::<2>(case, &data, &ks, w),
-                    3 => go::<3>(case, &data, &ks, w),
-                    4 => go::<4>(case, &data, &ks, w),
-                    5 => go::<5>(case, &data, &ks, w),
-                    6 => go::<6>(case, &data, &ks, w),
-                    7 => go::<7>(case, &data, &ks, w),
-                    _ => go::<8>(case, &data, &ks, w),
-                }
-            }
-            for k in 0..data.len() {
-                if data[k].len() > 8 {
-                    let _ = writeln!(w, "{}.{} M SKIP array-too-long", case.id, k);
-                }
-            }
-        }
-        Kind::BStream => emit_all::<BoxedCharStream, E<'static>>(case, w, |k| {
-            chumsky::input::Stream::from_iter(data[k].clone()).boxed()
-        }),
-        Kind::IoMap => emit_all::<MappedIo, E<'static>>(case, w, |k| {
-            let bytes: Vec<u8> = data[k].iter().map(|&c| c as u32 as u8).collect();
-            let f: fn(u8) -> (char, Sp) = io_pair;
-            chumsky::input::Input::map(chumsky::input::IoInput::new(std::io::Cursor::new(bytes)), Sp::from(200..200), f)
-        }),
-        Kind::WCtx => {
-            fn go<'src>(case: &Case, data: &'src [Vec<char>], w: &mut dyn Write) {
-                let built = catch_unwind(AssertUnwindSafe(|| build_case::<WithCtx<'src>, E<'src>>(case)));
-                for k in 0..data.len() {
-                    let obs = match &built {
-                        Ok(p) => {
-                            BASE.with(|b| b.set(data[k].as_ptr() as usize));
-                            run_one::<WithCtx<'src>, E<'src>>(p, case.mode, chumsky::input::Input::with_context(&data[k][..], ()))
-                        }
-                        Err(_) => format!("P {}", LAST_PANIC.with(|p| p.borrow().clone())),
-                    };
-                    let _ = writeln!(w, "{}.{} M {}", case.id, k, obs);
-                }
-            }
-            go(case, &data, w)
-        }
-        Kind::MSpan => {
-            fn go<'src>(case: &Case, data: &'src [Vec<char>], w: &mut dyn Write) {
-                emit_all::<MSpanSlice<'src>, E<'src>>(case, w, |k| {
-                    let f: fn(Sp) -> Sp = shift_span;
-                    chumsky::input::Input::map_span(&data[k][..], f)
-                })
-            }
-            go(case, &data, w)
-        }
-        _ => {
-            let _ = writeln!(w, "ERR wrong binary for this case :: {}", case.id);
-        }
     }
 }
 
